@@ -616,6 +616,17 @@ mod inner {
                             })?
                             .into_boxed_slice()
                     };
+                    // The lengths of outputs are added up in 16-bit counters when chords activate,
+                    // e.g. a followup chord erases the output of the chord before it.
+                    const MAX_OUTPUT_LEN: usize = 10000;
+                    if output.len() > MAX_OUTPUT_LEN {
+                        bail_expr!(
+                            &exprs[1],
+                            "Output is too long, the maximum is {MAX_OUTPUT_LEN} keys:\n{}: {}...",
+                            line_number + 1,
+                            line.chars().take(40).collect::<String>(),
+                        );
+                    }
                     let mut input_left_to_parse = input;
                     let mut chord_chars;
                     let mut input_chord = ZchInputKeys::zchik_new();
